@@ -1089,6 +1089,73 @@ def rt_records(obj, reb, dt, av, conc, extra=None):
     return recs
 
 
+NULL = {'j': 'null'}
+NOT_CALLED = object()
+
+
+class CommandNode:
+    """in-process stand-in for a node with one command: the real SecopClient.execCommand talks to it through
+    encode_msg_frame / decode_msg; the node imports + validates the argument and exports the result with its own
+    (constructor-built) datatypes; the client works with the command type rebuilt from the JSON description"""
+
+    def __init__(self, dt):
+        fd = frappy()
+        from frappy.client import SecopClient
+        self.dt = dt
+        self.arg_dt = None if dt['arg']['k'] == 'none' else dt['arg']
+        self.res_dt = None if dt['res']['k'] == 'none' else dt['res']
+        self.arg = build_type(self.arg_dt) if self.arg_dt else None
+        self.res = build_type(self.res_dt) if self.res_dt else None
+        self.client_type = fd.get_datatype(json.loads(json.dumps(fd.CommandType(self.arg, self.res).export_datatype())), 'cmd')
+        node = self
+
+        class Recorder(SecopClient):
+            def connect(self, *a, **k):
+                pass
+
+            def request(self, action, ident=None, data=None):
+                return node.handle(action, ident, data)
+
+            def __del__(self):
+                pass
+
+        self.client = object.__new__(Recorder)
+        self.client.modules = {'m': {'parameters': {}, 'commands': {'c': {'datatype': self.client_type}}}}
+        self.client.identifier = {('m', 'c'): 'm:c'}
+        self.client.cache = {}
+
+    def handle(self, action, ident, data):
+        from frappy.protocol.interface import decode_msg, encode_msg_frame
+        _, spec, wire = decode_msg(encode_msg_frame(action, ident, data))
+        if self.arg is None:
+            if wire is not None:
+                raise ValueError('the node received an argument for a command without argument')
+            self.received = None
+        else:
+            self.received = self.arg.validate(self.arg.import_value(wire))     # what the driver is called with
+        out = None if self.res is None else self.res.export_value(self.res.validate(self.result))
+        return decode_msg(encode_msg_frame('done', spec, [out, {'t': 1.0}]))
+
+    def call(self, a, r, extra=None):
+        """one call with the abstract argument a / result r -> rt.exec record"""
+        a_conc = None if self.arg is None else concrete(a, self.arg_dt, self.client_type.argument, internal=True)
+        r_conc = None if self.res is None else concrete(r, self.res_dt, self.res, internal=True)
+        return self.call_concrete(a, a_conc, r, r_conc, extra)
+
+    def call_concrete(self, a, a_conc, r, r_conc, extra=None):
+        self.result = r_conc
+        self.received = NOT_CALLED
+        gr, _ = outcome_of(lambda: self.client.execCommand('m', 'c', a_conc)[0], self.res_dt, r, r_conc)
+        if self.received is NOT_CALLED:
+            ga = {'ok': False, 'e': 'the request did not reach the driver'}
+        else:
+            ga, _ = outcome_of(lambda: self.received, self.arg_dt, a, a_conc)
+        rec = {'kind': 'rt.exec', 'dt': self.dt, 'a': a, 'r': r, 'ga': ga, 'gr': gr}
+        if extra:
+            rec.update(extra)
+        return rec
+
+
 def rt_children(dt, av):
     """element sub-cases (type, abstract value) of a container value"""
     k = dt['k']
@@ -1103,7 +1170,7 @@ def rt_children(dt, av):
 
 # ------------------------------------------------------------------- TLC as the judge
 
-SPEC_FIELDS = ('kind', 'dt', 'c', 'p', 'path', 'out', 'v', 'j', 'v1', 'v2', 'ts', 'v3', 't2same', 'cs', 'cssame', 'cw',
+SPEC_FIELDS = ('kind', 'dt', 'c', 'p', 'path', 'out', 'v', 'j', 'v1', 'v2', 'ts', 'v3', 't2same', 'cs', 'cssame', 'cw', 'r', 'ga', 'gr',
                'a', 'b', 'passes', 'd1', 'd2', 'd2x', 'd3', 'probes', 'before', 'after')
 
 
